@@ -76,7 +76,7 @@ fn main() {
             }
             let prop = &args[2];
             let items = props::items(prop, tier_of(&args[3]));
-            runner::ITEM_TIME_CAP_S.store(if tier_of(&args[3]) == Tier::Thorough { 1800 } else { 60 }, std::sync::atomic::Ordering::Relaxed);
+            runner::ITEM_TIME_CAP_S.store(if tier_of(&args[3]) == Tier::Thorough { 600 } else { 60 }, std::sync::atomic::Ordering::Relaxed);
             sidefile::open(&args[4]);
             let mut agg = runner::Agg::default();
             for tok in args[5].split(',') {
